@@ -37,7 +37,7 @@ class FnSummary:
     pass
 
 
-def summarize_fn(ctx, fn, specialise=None, assume=None, split=frozenset(), ranges=None, pre=None, record_arith=False):
+def summarize_fn(ctx, fn, specialise=None, assume=None, split=frozenset(), ranges=None, pre=None, record_arith=False, ret_filter=None, kill_ret_variant=None, record_switch=False):
     """Run an instruction helper `fn(vm, args...)` on an abstract machine with atom arguments.
     specialise: {arg_name: int} fixes an argument to a constant."""
     P = ctx.program
@@ -68,6 +68,11 @@ def summarize_fn(ctx, fn, specialise=None, assume=None, split=frozenset(), range
             args.append(v)
     if pre:
         pre(I, st)
+    if ret_filter is not None:
+        I.top_ret_filter = ret_filter
+    if kill_ret_variant is not None:
+        I.kill_ret_variant = kill_ret_variant
+    I.record_switch = record_switch
     ret = I.run_fn(fn, args, st)
     s = FnSummary()
     s.fn = fn
@@ -125,34 +130,49 @@ def atoms_of(deps):
 
 def check_flags(chk, rid_frame, rid_def, unit, flagv, written, undefined=(), cleared=(), preserved=(), self_dep_ok=(), where=""):
     """R-frame: every flag outside written/undefined/cleared is exactly unchanged.
-       R-def : every written flag is assigned on every path (not a copy of, nor dependent on, its old value
-               unless listed in self_dep_ok); cleared flags are constant 0."""
+       R-def : every written flag is assigned on every path (not a copy of its old value on some path unless listed in
+               self_dep_ok); cleared flags are constant 0.
+    Verdicts are definite only on *exact* facts: a bit that is a constant, a copy / complement of an input bit, or a join of
+    such bits over paths (`balts`).  A bit that went through arithmetic the bit domain does not follow carries only an
+    over-approximated dependence set: that decides nothing, except that a bit which does not depend on its own old value
+    cannot be a copy of it."""
+    from domains import balts
     names = {v: k for k, v in FBIT.items()}
     for i in range(16):
         nm = names.get(i, f"bit{i}")
-        st = flag_state(flagv.bits[i], i)
+        bit = flagv.bits[i]
+        st = flag_state(bit, i)
+        alts = balts(bit)
+        own = ("c", "flag", i)
         if nm in undefined:
             continue
         if nm in cleared:
             if st == "const0":
                 chk.ok(rid_def, f"{unit}:{nm}", "cleared on every path")
-            else:
+            elif alts is not None and alts != frozenset((0,)):
                 chk.violation(rid_def, unit, f"{nm}-not-cleared", f"{nm} must be 0 after {unit}; abstract value: {st}", where)
+            else:
+                chk.undecided_(rid_def, f"{unit}:{nm}", f"{nm} must be 0; its value went through arithmetic the bit domain does not follow")
             continue
         if nm in written:
             if st == "unchanged":
                 chk.violation(rid_def, unit, f"{nm}-never-written", f"{nm} is never assigned by {unit}", where)
-            elif st == "computed" and ("flag", i) in deps_of(flagv.bits[i]) and nm not in self_dep_ok:
+            elif alts is not None and own in alts and nm not in self_dep_ok:
                 chk.violation(rid_def, unit, f"{nm}-not-written-on-every-path",
-                              f"{nm} keeps (or is derived from) its previous value on some path of {unit}", where)
+                              f"{nm} keeps its previous value on some path of {unit}", where)
+            elif alts is None and ("flag", i) in deps_of(bit) and nm not in self_dep_ok:
+                chk.undecided_(rid_def, f"{unit}:{nm}", f"{nm} may be derived from its previous value (dependence through arithmetic the bit domain does not follow)")
             else:
                 chk.ok(rid_def, f"{unit}:{nm}", st)
             continue
         # everything else (incl. preserved, TF/IF/DF, reserved bits) must be untouched
         if st == "unchanged":
             chk.ok(rid_frame, f"{unit}:{nm}", "unchanged", nontrivial=(nm in preserved))
-        else:
+        elif alts is not None or ("flag", i) not in deps_of(bit):
+            # an exact other value, a join with one, or a value that does not even depend on the old bit
             chk.violation(rid_frame, unit, f"{nm}-modified", f"{nm} must not be changed by {unit}; abstract value: {st}", where)
+        else:
+            chk.undecided_(rid_frame, f"{unit}:{nm}", f"{nm} must not change; the flag word went through arithmetic the bit domain does not follow")
 
 
 def check_required_deps(chk, rid, unit, what, value_bits, required, where=""):
@@ -191,3 +211,110 @@ def report_aborts(chk, rid, unit, events, where=""):
                           f"{(where or e.fn).rsplit(chr(58), 1)[0] if (where or e.fn).rsplit(chr(58), 1)[-1].isdigit() else (where or e.fn)}:{e.line}", e.witness)
         else:
             chk.undecided_(rid, f"{e.fn}:{e.akind}@{e.line}", "interval analysis cannot exclude the failing side")
+
+
+# ---------------------------------------------------------------------------------------------------------------
+# flags set by hand-written branches: `if cond { set_flag(F) } else { unset_flag(F) }`
+_FLAG_EFFECT_CACHE = {}
+
+
+def flag_write_effect(ctx, e):
+    """What a call does to the flag word, found by running the callee on a machine whose flag word is an atom:
+    [(bit, constant)] for the bits that end as constants.  Only calls whose other arguments are constants / references."""
+    from absint import Interp, Unsupported as U_
+    from units import machine_state
+    P = ctx.program
+    g = P.fns.get(e.fref.get("id")) if getattr(e, "fref", None) else None
+    if g is None:
+        return []
+    sig = []
+    for a in e.args:
+        if a.kind == "ref":
+            sig.append(("ref", a.loc))
+        elif a.kind == "enum" and a.variant is not None and not a.fields:
+            sig.append(("enum", a.name, a.variant))
+        elif a.kind == "int" and a.is_const():
+            sig.append(("int", a.ty, a.lo))
+        else:
+            return []
+    key = (g["id"], tuple(sig))
+    if key in _FLAG_EFFECT_CACHE:
+        return _FLAG_EFFECT_CACHE[key]
+    I = Interp(P)
+    st = machine_state(I, P)
+    out = []
+    try:
+        I.run_fn(g, list(e.args), st)
+        if not st.dead:
+            fl = st.frames[0]["vm"].fields[0].fields[arch_index(P)["flag"]]
+            if fl.kind == "int":
+                out = [(i, b) for i, b in enumerate(fl.bits) if b in (0, 1)]
+                if len(out) > 2:
+                    out = []   # rewrites the whole word: not a single-flag write
+    except U_:
+        out = []
+    _FLAG_EFFECT_CACHE[key] = out
+    return out
+
+
+def branch_flag_conditions(ctx, fn, s):
+    """For the helper `fn` analysed in summary `s` (run with record_switch=True): flags that the helper itself sets and
+    clears on the two sides of one branch.  -> {flag bit: (scrutinee value of that branch, truth value for which the flag
+    is SET)}; a flag that is also written elsewhere in the helper, or not written on some path through the branch, is
+    left out."""
+    import mir as M
+    writes = {}   # bit -> {block: value}
+    for e in s.I.events:
+        if e.kind == "call" and e.fn == fn["name"] and getattr(e, "fref", None) and e.fref.get("local"):
+            for bit, val in flag_write_effect(ctx, e):
+                writes.setdefault(bit, {})[e.bb] = val
+    if not writes:
+        return {}
+    cfg = M.CFG(fn)
+    switches = {}
+    for e in s.I.events:
+        if e.kind == "switch" and e.fn == fn["name"]:
+            switches.setdefault(e.bb, []).append(e)
+    out = {}
+    rets = [bi for bi, bb in enumerate(fn["blocks"]) if M.term(bb)[0] == "return"]
+    for bit, blocks in writes.items():
+        S = {b for b, v in blocks.items() if v == 1}
+        C = {b for b, v in blocks.items() if v == 0}
+        if not S or not C:
+            continue
+        best = None
+        for b, evs in switches.items():
+            if len(evs) != 1:
+                continue
+            e = evs[0]
+            targets = [t for _, t in e.arms] + [e.otherwise]
+            if len(targets) != 2 or not all(cfg.dominates(b, x) for x in S | C):
+                continue
+            r0 = cfg.reachable_from(targets[0], avoid={b})
+            r1 = cfg.reachable_from(targets[1], avoid={b})
+            only0, only1 = r0 - r1, r1 - r0
+            if S <= only0 and C <= only1:
+                side = 0
+            elif S <= only1 and C <= only0:
+                side = 1
+            else:
+                continue
+            # every path from the branch to a return writes the flag: returns are not reachable avoiding S and C
+            if any(r in cfg.reachable_from(targets[0], avoid=S | C | {b}) or r in cfg.reachable_from(targets[1], avoid=S | C | {b}) for r in rets):
+                continue
+            if best is None or cfg.dominates(best[0], b):
+                best = (b, e, side)
+        if best is None:
+            continue
+        b, e, side = best
+        arm_val = e.arms[0][0]
+        # targets[0] is taken when the scrutinee equals arm_val
+        d = e.val
+        if d.kind != "int":
+            continue
+        if d.ty == "bool":
+            truth_when_set = bool(arm_val) if side == 0 else (not bool(arm_val))
+            out[bit] = (d, truth_when_set, None)
+        else:
+            out[bit] = (d, side == 0, arm_val)   # set when (d == arm_val) is `side == 0`
+    return out
